@@ -249,7 +249,7 @@ def classify(run, tags, spans, fns, sections, lines, fn_props):
                     dprops.add("C04")
                 names.append("assert")
             elif "unreachable_unchecked" in text:
-                dprops.update(["C05"])
+                dprops.update(["C05", "C17"])   # UB in release, a (non-unwinding) panic under debug assertions: the profiles diverge
                 names.append("unreachable_unchecked") if not names else None
             elif "unreachable!" in text:
                 dprops.update(["C05", "C01"])
@@ -576,6 +576,17 @@ def advisories(res, verif=None):
         if f.get("external") and f["key"] in pins and pins[f["key"]] != f["tokhash"] and f["key"] not in (res.get("demoted") or []):
             out.append({"kind": "assumed-function-changed", "props": set(fn_props.get(f["key"], [])) | set(f.get("stake", [])),
                         "reason": "assumed (external_body) function %s differs from the text its contract was written for: the assumption no longer applies" % f["key"]})
+    # functions of the three files that are neither verified nor assumed (iterator adapters, Debug, Drop, operator impls ...):
+    # no obligation covers them, so a change to one of them must not pass for "verified"
+    try:
+        upins = json.load(open(os.path.join(verif, "contracts", "unverified_pins.json")))
+    except (OSError, ValueError):
+        upins = {}
+    for u in meta.get("unextracted", []):
+        ent = upins.get("%s|%s" % (u["file"], u["key"]))
+        if ent and ent["tokhash"] != u["tokhash"] and ent["props"]:
+            out.append({"kind": "unverified-function-changed", "props": set(ent["props"]),
+                        "reason": "%s (%s) is outside what the verifier covers (not extracted) and differs from the pinned text: nothing is known about the change" % (u["key"], u["file"])})
     un = meta.get("unspecified_iterator_methods", [])
     if un:
         out.append({"kind": "iterator-method-without-contract", "props": {"C08", "C13", "C14"},
@@ -584,6 +595,32 @@ def advisories(res, verif=None):
 
 
 def hint_lost_fns(res):
-    """functions in which a proof hint / closure contract / restructuring rule lost its anchor: a failed obligation there
-    may be failing for want of the hint, so it is never reported as a violation on its own"""
+    """functions in which some proof hint / closure contract / restructuring rule lost its anchor (see explained_by_lost_hint)"""
     return set(sk.get("fn") for sk in (res.get("meta", {}) or {}).get("skipped_anchors", []) if sk.get("fn"))
+
+
+_HINT_SERVES = None
+
+
+def explained_by_lost_hint(res, failure):
+    """May the failed obligation `failure` (dict with fn, name) be failing only because a proof hint of its function lost its
+    anchor? For a text-anchored ghost hint the answer comes from contracts/hint_serves.json (tools/hintmap.py: the clauses
+    that fail on the pinned tree when exactly that hint is left out); a lost closure contract or restructuring rule, or a hint
+    without an entry, may explain any failure in its function."""
+    global _HINT_SERVES
+    if _HINT_SERVES is None:
+        try:
+            _HINT_SERVES = json.load(open(os.path.join(VERIF, "contracts", "hint_serves.json")))
+        except (OSError, ValueError):
+            _HINT_SERVES = {}
+    for sk in (res.get("meta", {}) or {}).get("skipped_anchors", []):
+        if sk.get("fn") != failure["fn"]:
+            continue
+        if sk.get("kind") != "ghost":
+            return True
+        ent = _HINT_SERVES.get(sk.get("name"))
+        if ent is None or ent.get("serves") is None:
+            return True
+        if failure["name"] in ent["serves"]:
+            return True
+    return False
